@@ -74,6 +74,7 @@ extern "C" int harness_main() {
   std::vector<std::string> menu = split_words(sc->targets);
   std::string target = menu[menu.size() > 1 ? verif_choice("tool_target", (int)menu.size()) : 0];
   std::vector<std::string> targets; targets.push_back(target);
+  std::string typed_target = verif_bool("target_spelled_noncanonically") ? "./" + target : target;      // C14: what the user types on the command line is canonicalised before it is looked up
 #ifdef MODE_CLEANDEAD
   // ------------------------------------------------------------------------------------------------ C18: -t cleandead after statements were removed from the manifest
   (void)targets;
@@ -155,11 +156,11 @@ extern "C" int harness_main() {
 #endif
   std::vector<std::string> args; args.push_back("-t");
   switch (tool) {
-    case T_COMMANDS: args.push_back("commands"); args.push_back(target); break;
-    case T_COMMANDS_S: args.push_back("commands"); args.push_back("-s"); args.push_back(target); break;
-    case T_INPUTS: args.push_back("inputs"); args.push_back(target); break;
+    case T_COMMANDS: args.push_back("commands"); args.push_back(typed_target); break;
+    case T_COMMANDS_S: args.push_back("commands"); args.push_back("-s"); args.push_back(typed_target); break;
+    case T_INPUTS: args.push_back("inputs"); args.push_back(typed_target); break;
     case T_MULTI_INPUTS: args.push_back("multi-inputs"); args.push_back("-d"); args.push_back(";"); args.push_back(target); break;
-    case T_QUERY: args.push_back("query"); args.push_back(target); break;
+    case T_QUERY: args.push_back("query"); args.push_back(typed_target); break;
     case T_TARGETS_ALL: args.push_back("targets"); args.push_back("all"); break;
     case T_TARGETS_RULE: args.push_back("targets"); args.push_back("rule"); args.push_back("cc"); break;
     case T_TARGETS_DEPTH: args.push_back("targets"); args.push_back("depth"); args.push_back("0"); break;
@@ -167,12 +168,12 @@ extern "C" int harness_main() {
     case T_GRAPH: args.push_back("graph"); args.push_back(target); break;
     case T_COMPDB: args.push_back("compdb"); break;
     case T_COMPDB_X: args.push_back("compdb"); args.push_back("-x"); args.push_back("link"); args.push_back("cc"); break;
-    case T_COMPDB_TARGETS: args.push_back("compdb-targets"); args.push_back(target); break;
+    case T_COMPDB_TARGETS: args.push_back("compdb-targets"); args.push_back(typed_target); break;
     case T_DEPS: args.push_back("deps"); break;
     case T_MISSINGDEPS: args.push_back("missingdeps"); args.push_back(target); break;
     case T_RESTAT: args.push_back("restat"); break;
     case T_RECOMPACT: args.push_back("recompact"); break;
-    default: args.clear(); args.push_back("-n"); args.push_back("-j"); args.push_back("2"); args.push_back(target); break;
+    default: args.clear(); args.push_back("-n"); args.push_back("-j"); args.push_back("2"); args.push_back(typed_target); break;
   }
   bool read_only = tool != T_RESTAT && tool != T_RECOMPACT;
   // control experiment: what the real build of the target does from this very state when no tool has run (then the state is put back)
